@@ -493,8 +493,108 @@ def check_table(ctx):
         for a, m in zip(sorted(arr), ans):
             if m != arr[a]:
                 ctx.disagree(f'array count type for endian={a}: model {m} vs parser {arr[a]}', {'kind': 'array-count', 'endian': a})
+    check_array_elems(ctx)
     if _PREBUILT is None:
         ctx.notes.append('prebuild failed: ' + globals().get('_PREBUILD_ERROR', '?'))
+
+
+def elem_values(rng, tid):
+    """element values whose bytes are not a palindrome (byte order shows), boundary values, and random ones"""
+    ty = elem_ty_tree(tid)
+    k = kind(ty)
+    if k == 'int':
+        size, signed = ty[1], ty[2]
+        lo, hi = bc.int_range(size, signed)
+        vals = [int.from_bytes(bytes(range(1, size + 1)), 'big'), 1, hi, lo, hi - 1, 256 % (hi + 1)] + ([-2, -256 if size > 1 else -3] if signed else [])
+        vals += [bc.gen_int(rng, size, signed) for _ in range(2)]
+        return ty, [['i', x] for x in vals]
+    if k == 'bool':
+        return ty, [['b', True], ['b', False], ['b', True]]
+    if k == 'char':
+        return ty, [['s', 65], ['s', 0xe9 if ty[1] else 0x7e], ['s', 32]]
+    if k == 'str':
+        return ty, [['s', 97, 98], ['s'], ['s'] + [0xe9 if ty[1] else 0x7e] * 3, ['s'] + [65 + i % 26 for i in range(258)]]
+    return ty, [['s', 97, 98], ['s'], ['s'] + [120] * FIXED_LEN, ['s', 0xe9 if ty[1] else 0x7e]]
+
+
+def array_elem_case(B, row, attr, form, tid, vals, tail=b'\x07'):
+    """None, or what is wrong with the bytes of one generated array type on one list of element values (implementation alone,
+    against the reference layout written from the documentation): returns (description, got, expected)"""
+    be = attr == 'big'
+    ety = elem_ty_tree(tid)
+    ty = ['arr', ety, 2, False, be]
+    v = ['l'] + vals
+    if form.startswith('double'):
+        ty = ['arr', ty, 2, False, be]
+        v = ['l', v, ['l'], ['l'] + vals[:1]]
+    obj = row['obj']
+    if obj is None:
+        return (f'the generated type `{row["text"]}` is not an array type the generated module can build ({row.get("error", "shape")})', '', ''), ty, v
+    ref = ref_layout(ty, v)
+    r = bc.impl_encode(obj, B.from_val(ty, v, typed=False))
+    if r[0] == 'err':
+        return (f'encoding raised {r[1]}', '', ref.hex()), ty, v
+    if r[2] != ref or r[1] != len(ref):
+        i = next((j for j in range(min(len(ref), len(r[2]))) if ref[j] != r[2][j]), min(len(ref), len(r[2])))
+        return (f'bytes differ from the documented layout at offset {i}: got {r[2][max(0, i - 4):i + 8].hex()} expected {ref[max(0, i - 4):i + 8].hex()}',
+                r[2].hex(), ref.hex()), ty, v
+    d = bc.impl_decode(obj, ref + tail)
+    if d[0] == 'err':
+        return (f'decoding the documented layout raised {d[1]}', '', ref.hex()), ty, v
+    try:
+        back = bc.to_val(ty, d[2])
+    except Exception as e:  # noqa
+        back = 'unprintable:' + err_name(e)
+    if d[1] != len(ref) or back != v:
+        return (f'the documented layout decodes to ({d[1]} bytes) {bc.short(sx(back), 80)}', '', ref.hex()), ty, v
+    return None, ty, v
+
+
+def check_array_elems(ctx, only=None):
+    """array fields as the real parser generates them: the ELEMENT type must be the declared DATATYPE whatever the `endian`
+    attribute says (it selects the count's byte order), every level counts in the documented count type, and real bytes of
+    non-palindromic element values are the documented layout (reference codec and Lean `Spec.Layout.layout`) in both directions"""
+    from nasdaq_protocols.common.types import TypeDefinition
+    B = bc.Builder()
+    forms = probe_array_elem_forms()
+    by_name = {}
+    for tid_, obj in TypeDefinition.Definitions.items():
+        by_name.setdefault(getattr(obj, '__name__', str(obj)), tid_)
+    lines, expect = [], []
+    for (attr, form, label), row in sorted(forms.items()):
+        if only is not None and (attr, form, label) != only:
+            continue
+        tid = label.split(':', 1)[1] if label.startswith('enum:') else label
+        rep = {'kind': 'array-elem', 'endian': attr, 'form': form, 'declared': label, 'declaration': row['xml'], 'generated': row['text']}
+        ctx.case(f'array elem {attr} {form} {label}', nontrivial=True, sample_every=131)
+        ctx.count('array-elem-row')
+        if row['elem'] != DOCUMENTED[tid]:
+            ctx.count('array-elem-row:type-differs')
+        want_count = DOCUMENTED_ARRAY_COUNT[attr]
+        if [by_name.get(c, 'unknown:' + c) for c in row['counts']] != [want_count] * (2 if form.startswith('double') else 1):
+            ctx.violation(f'{row["xml"]}: generated `{row["text"]}`, every level must count in {want_count}', dict(rep, probed=row['counts']))
+        ety, vals = elem_values(ctx.rng, tid)
+        bad, ty, v = array_elem_case(B, row, attr, form, tid, vals)
+        if bad:
+            for x in vals:           # smallest list that still shows it
+                b1, ty1, v1 = array_elem_case(B, row, attr, form, tid, [x])
+                if b1:
+                    bad, ty, v = b1, ty1, v1
+                    break
+            ctx.violation(f'{row["xml"]} generates `{row["text"]}`; values {bc.short(sx(v), 60)}: {bad[0]}',
+                          dict(rep, ty=sx(ty), val=sx(v), got=bad[1], expected=bad[2], probed_elem=list(row['elem']), documented_elem=list(DOCUMENTED[tid])))
+        elif row['elem'] != DOCUMENTED[tid]:
+            ctx.violation(f'{row["xml"]} generates `{row["text"]}`: the element type behaves as {row["elem"]}, the declared DATATYPE {tid} is '
+                          f'documented as {DOCUMENTED[tid]}', dict(rep, probed_elem=list(row['elem']), documented_elem=list(DOCUMENTED[tid])))
+        if row['obj'] is not None:
+            r = bc.impl_encode(row['obj'], B.from_val(ty, v, typed=False))
+            if r[0] == 'ok':
+                lines.append(f'bin.layout {sx(ty)} {sx(v)}')
+                expect.append((sx(r[2]), dict(rep, ty=sx(ty), val=sx(v))))
+    if ctx.driver.available and lines:
+        for a, (g, rep) in zip(ctx.driver.ask(lines), expect):
+            if a != g:
+                ctx.violation(f'{rep["declaration"]}: implementation bytes differ from Spec.Layout.layout: {bc.short(g, 60)} vs {bc.short(a, 60)}', rep)
 
 
 def gen_cases(ctx):
@@ -574,7 +674,9 @@ def run(ctx):
     ctx.cov['rule'] = ('the C01 schema/value generator (all types, nesting, boundary tables, every count type), each in-domain case compared '
                        'byte for byte: implementation vs an independent struct-based reference vs the Lean layout spec; reference bytes + '
                        'tail decoded by the implementation; raw decoder inputs (truncated / corrupted / random bytes) against the model; '
-                       'the 20 probed type ids and the array count selection against the documented tables; distinct = distinct (schema, value, tail)')
+                       'the 20 probed type ids and the array count selection against the documented tables; array fields as the real parser generates them '
+                       '(endian attribute x 8 declaration forms x every DATATYPE id and enums as the element type): element type, count types and real '
+                       'bytes of non-palindromic element values against the documented layout; distinct = distinct (schema, value, tail)')
     check_table(ctx)
 
     lines, expect, metas = [], [], []
@@ -737,6 +839,11 @@ def replay(ctx, path):
     ctx.case('replay ' + bc.short(json.dumps(rep)))
     ctx.case('replay-marker')
     B = bc.Builder()
+    if rep.get('kind') == 'array-elem':
+        check_array_elems(ctx, only=(rep['endian'], rep['form'], rep['declared']))
+        row = probe_array_elem_forms()[(rep['endian'], rep['form'], rep['declared'])]
+        print('declaration:', row['xml'], '\ngenerated:  ', row['text'], '\nelement type behaves as', row['elem'])
+        return
     if rep.get('kind') in ('type-table', 'array-count'):
         check_table(ctx)
         return
